@@ -35,6 +35,7 @@ type Config struct {
 	WallDeadline time.Time
 	FPExactAdd   bool
 	SymSlices    bool
+	Witnesses    int
 }
 
 type InputVar struct {
@@ -57,6 +58,7 @@ type Inconclusive struct {
 	Harness string
 	Reason  string
 	Case    string
+	Count   int
 }
 
 type Sample struct {
@@ -149,6 +151,7 @@ type Explorer struct {
 	violations   []Violation
 	inconclusive []Inconclusive
 	vioSeen      map[string]bool
+	witnesses    []Witness
 }
 
 func NewExplorer(prog *ssa.Program, fn *ssa.Function, cfg Config) *Explorer {
@@ -242,10 +245,16 @@ func (e *Explorer) addViolation(v Violation) {
 func (e *Explorer) addInconclusive(reason, cs string) {
 	e.mu.Lock()
 	defer e.mu.Unlock()
-	if len(e.inconclusive) < 50 {
-		e.inconclusive = append(e.inconclusive, Inconclusive{e.name, reason, cs})
+	for i := range e.inconclusive {
+		if e.inconclusive[i].Reason == reason {
+			e.inconclusive[i].Count++
+			return
+		}
+	}
+	if len(e.inconclusive) < 30 {
+		e.inconclusive = append(e.inconclusive, Inconclusive{Harness: e.name, Reason: reason, Case: cs, Count: 1})
 	} else {
-		e.inconclusive[49].Reason = "(more) " + reason
+		e.inconclusive[29].Count++
 	}
 }
 
@@ -276,6 +285,7 @@ type Worker struct {
 	journal  []journalEnt
 	mergeDepthAbort bool
 	inInit          bool
+	observes        []obsRec
 	constCache      map[*ssa.Const]Value
 	randSeq         int
 	stubs           map[string]Value
@@ -351,6 +361,7 @@ func (w *Worker) runPath(j Job) {
 	w.globals = map[*ssa.Global]*Value{}
 	w.nextBack = 0
 	w.depth = 0
+	w.observes = w.observes[:0]
 	w.randSeq = 0
 	w.stubs = nil
 	w.taskSeq, w.curTask = 0, 0
@@ -414,6 +425,7 @@ func (w *Worker) runPath(j Job) {
 	if completed {
 		w.stats.Paths++
 		w.stats.Cases[w.caseString()]++
+		w.maybeWitness()
 	}
 }
 
@@ -844,4 +856,93 @@ func deref(t types.Type) types.Type {
 		return p.Elem()
 	}
 	panic(fmt.Sprintf("deref of non-pointer %v", t))
+}
+
+type obsRec struct {
+	name string
+	v    Value
+}
+
+// maybeWitness records a model of this completed path (inputs and observed
+// values) for native cross-validation; a few per harness.
+func (w *Worker) maybeWitness() {
+	e := w.ex
+	e.mu.Lock()
+	n := len(e.witnesses)
+	e.mu.Unlock()
+	if n >= e.cfg.Witnesses || w.randSeq > 0 {
+		return
+	}
+	var obsTerms []*Term
+	for _, o := range w.observes {
+		if t, ok := o.v.(*Term); ok && !t.IsConst() {
+			obsTerms = append(obsTerms, t)
+		}
+	}
+	want := append(w.inputTerms(), obsTerms...)
+	res, m := w.solver.Check(w.pc, want)
+	if res != "sat" || m == nil {
+		return
+	}
+	tape := w.buildTape(m)
+	exp := map[string]string{}
+	for _, o := range w.observes {
+		switch v := o.v.(type) {
+		case *Term:
+			var s string
+			if v.IsConst() {
+				s = constString(v)
+			} else {
+				s = modelString(v, m[strings.Trim(v.ref(), "|")])
+			}
+			if s != "" {
+				exp[o.name] = s
+			}
+		case StrV:
+			if v.Sym == nil {
+				exp[o.name] = fmt.Sprintf("%q", v.S)
+			}
+		}
+	}
+	e.mu.Lock()
+	if len(e.witnesses) < e.cfg.Witnesses {
+		e.witnesses = append(e.witnesses, Witness{Tape: tape, Expect: exp, Case: w.caseString()})
+	}
+	e.mu.Unlock()
+}
+
+func constString(t *Term) string {
+	switch t.Sort.K {
+	case SBool:
+		return fmt.Sprintf("%v", t.B)
+	case SBV:
+		return fmt.Sprintf("%d", signExt(t.U, t.Sort.W))
+	default:
+		return fmt.Sprintf("%g", t.F)
+	}
+}
+
+func modelString(t *Term, v string) string {
+	if v == "" {
+		return ""
+	}
+	switch t.Sort.K {
+	case SBool:
+		return v
+	case SBV:
+		u, ok := modelBV(v)
+		if !ok {
+			return ""
+		}
+		return fmt.Sprintf("%d", signExt(u, t.Sort.W))
+	case SReal:
+		f, ok := modelReal(v)
+		if !ok {
+			return ""
+		}
+		return fmt.Sprintf("%g", f)
+	case SFP:
+		return fmt.Sprintf("%g", modelFP(v))
+	}
+	return ""
 }
